@@ -9,6 +9,9 @@ import Driver.CallProto
 import StyluaModel.Model.Cost
 import StyluaModel.Generated.ExitOps
 import StyluaModel.Model.Run
+import Driver.DiffProto
+import Driver.ConfigProto
+import StyluaModel.Model.Stdin
 /-
 `modeld`: one request per line on stdin, one answer per line on stdout.
 The harness runs the real code on the same requests and diffs the answers.
@@ -88,6 +91,15 @@ def handle (line : String) : String :=
       let m := if mode == "check" then StyluaModel.Run.Mode.check else StyluaModel.Run.Mode.write
       let r := StyluaModel.Run.run m files files
       s!"{r.exit} w:{",".intercalate (r.written.map toString)} d:{",".intercalate (r.diffs.map toString)}"
+  | ["diffjson", v, ops, o, n] => Driver.DiffProto.handle v ops o n
+  | ["config", req] => Driver.ConfigProto.handle req
+  | ["stdin", check, respect, ignored, parses, same] =>
+      -- abstract run: the formatter is a parameter (parses? formatted = input?)
+      let o : StyluaModel.Stdin.Opts := { check := check == "1", respectIgnores := respect == "1", stdinPathIgnored := ignored == "1" }
+      let fmt : List Nat → Option (List Nat) := fun i => if parses == "1" then some (if same == "1" then i else i ++ [0]) else none
+      let r := StyluaModel.Stdin.run fmt o [1]
+      let out := match r.stdout with | .text t => (if t == [1] then "input" else "formatted") | .diff => "diff" | .nothing => "nothing"
+      s!"{out} {r.exit}"
   | ["faithful", i] => Driver.ExprProto.handleFaithful i
   | ["semeq", i, o] => Driver.ExprProto.handleSem i o
   | _ => "bad-op"
